@@ -8,10 +8,11 @@
    Streams are objects created by media.NewStream; several objects can carry the
    same canonical path (a camera that re-publishes).                           *)
 EXTENDS Naturals, Sequences, FiniteSets, TLC, Json
-CONSTANTS MaxHist, EmitAt
+CONSTANTS MaxHist, EmitAt,
+          Streams     \* {"s1", "s2", "s3"} (two generations of "/a" and a stream of "/b") or {"s1", "s2", "s4"}: three
+                      \* generations of one path - a path taken over twice while the displaced streams still have consumers
 
-Streams == {"s1", "s2", "s3"}
-PathOf(s) == IF s = "s3" THEN "/b" ELSE "/a"        \* s1 is created with "/a", s2 with " /A " (same canonical path)
+PathOf(s) == IF s = "s3" THEN "/b" ELSE "/a"        \* s1 is created with "/a", s2 with " /A ", s4 with "/A" (same canonical path)
 Paths == {"/a", "/b", "/c"}
 Kinds == {"rtp", "flv"}
 None == "none"
@@ -137,4 +138,11 @@ NeverReturnsClosed == \A p \in Paths : reg[p] # None => status[reg[p]] = "ok"
 LiveUnmappedIsRetiring == \A s \in Streams : (Live(s) /\ reg[PathOf(s)] # s) => retiring[s]
 View == <<reg, status, cons, retiring, hls>>
 EmitEdge == PrintT(<<"@H", ToJson([hist |-> hist'])>>)
+\* first (BFS-shortest) history per class of step: the operation and, before it, every stream's status, whether it has
+\* consumers and whether it is the mapped one (needs -workers 1 and INIT InitR)
+StepClass == LET h == hist'[Len(hist')] IN
+             <<h.op, h.s, h.k, h.flag, status, [s \in Streams |-> cons[s] # {}], [s \in Streams |-> reg[PathOf(s)] = s]>>
+EmitClass == IF StepClass \in TLCGet(1) THEN TRUE
+             ELSE TLCSet(1, TLCGet(1) \cup {StepClass}) /\ PrintT(<<"@H", ToJson([hist |-> hist'])>>)
+InitR == Init /\ TLCSet(1, {})
 ================================================================================
